@@ -63,6 +63,8 @@ class ECBinding(CryptographyBinding):
 
     @classmethod
     def import_private_key(cls, obj: ECDictKey) -> EllipticCurvePrivateKey:
+        if obj["crv"] not in cls._dss_curves:
+            raise ValueError('Invalid crv value: "{}"'.format(obj["crv"]))
         curve = cls._dss_curves[obj["crv"]]()
         public_numbers = EllipticCurvePublicNumbers(
             base64_to_int(obj["x"]),
@@ -86,6 +88,8 @@ class ECBinding(CryptographyBinding):
 
     @classmethod
     def import_public_key(cls, obj: ECDictKey) -> EllipticCurvePublicKey:
+        if obj["crv"] not in cls._dss_curves:
+            raise ValueError('Invalid crv value: "{}"'.format(obj["crv"]))
         curve = cls._dss_curves[obj["crv"]]()
         public_numbers = EllipticCurvePublicNumbers(
             base64_to_int(obj["x"]),
